@@ -367,6 +367,28 @@ func init() {
 						continue
 					}
 					found = true
+					// the reused frame must be reset to non-terminal on every turn
+					termFld := c.LookupField("lisp.CallFrame.Terminal")
+					resets := fc.blocksWith(func(n ast.Node) bool {
+						as, ok := n.(*ast.AssignStmt)
+						return ok && len(as.Lhs) == 1 && len(as.Rhs) == 1 && termFld != nil && FieldOfSelector(pkg.TypesInfo, as.Lhs[0]) == termFld && isBoolConst(pkg.TypesInfo, as.Rhs[0], false)
+					})
+					{
+						rest := fc.cyclicSCCs(func(b *cfg.Block) bool { return resets[b] })
+						still := false
+						for _, comp2 := range rest {
+							for _, b := range comp2 {
+								if hasCall(b, call) {
+									still = true
+								}
+							}
+						}
+						if still {
+							obs = append(obs, mkOb(c, "TRO.mark-consumed", u, "tail loop resets Terminal", fd, Violated, "the frame reused by a tail call keeps its Terminal flag: a call from a non-final body form of the next iteration is mistaken for a tail call and its mark is discarded", true))
+						} else {
+							obs = append(obs, mkOb(c, "TRO.mark-consumed", u, "tail loop resets Terminal", fd, Proved, "every cycle through env.call stores Terminal=false on the reused frame", true))
+						}
+					}
 					for _, req := range []*types.Func{dec, ctc, cl} {
 						rest := fc.cyclicSCCs(func(b *cfg.Block) bool { return hasCall(b, req) })
 						still := false
